@@ -64,8 +64,9 @@ def axis (j : Json) : P Axis := do
 def dimArray (k : Nat) (j : Json) : P (DimArray Cell) := do
   let axes ← listOf axis (← fld j "axes")
   let shape := axes.map (·.size)
+  let nans ← listOf nat (fldD j "nan" (Json.arr #[]))
   pure { axes := axes
-         vals := { shape := shape, get := fun i => Cell.src k (ravel shape i) }
+         vals := { shape := shape, get := fun i => let f := ravel shape i; if nans.contains f then Cell.nan else Cell.src k f }
          vkind := ← kind (fldD j "vkind" (Json.str "f"))
          attrs := ← attrs (fldD j "attrs" (Json.arr #[])) }
 
@@ -167,6 +168,8 @@ partial def encCell : Cell → Json
   | .sub a b => Json.arr #["sub", encCell a, encCell b]
   | .lin a b w => Json.arr ((#[Json.str "lin", encCell a, encCell b] : Array Json) ++ (encRat w).toArray)
   | .lab l => Json.arr #["lab", encLabel l]
+  | .arg cs ls => Json.arr #["arg", Json.arr (cs.map encCell).toArray, Json.arr (ls.map encLabel).toArray]
+  | .argpos cs => Json.arr #["argpos", Json.arr (cs.map encCell).toArray]
   | .idx n => Json.arr #["idx", Json.num (JsonNumber.fromNat n)]
   | .bool b => Json.arr #["bool", Json.bool b]
 
